@@ -38,14 +38,14 @@ where
 
 def str? (h : String) : Option String := (unhexBytes h).bind fun bs => String.fromUTF8? (ByteArray.mk bs.toArray)
 
-/-- environment on the `ev` line: `-` or `name=tok,tok;name=;…` (hex names, value tokens of FP.Drv.Val) -/
+/-- environment on the `ev` line: `-` or `name=tok,tok;name=;…` (hex names, value tokens of FP.Drv.Val with ',' written '/') -/
 def parseEnv (s : String) : Option Env :=
   if s == "-" then some [] else
   (s.splitOn ";").mapM fun p =>
     match p.splitOn "=" with
     | [n, vs] => do
         let name ← str? n
-        let vals ← if vs == "" then some [] else (vs.splitOn ",").mapM FP.Drv.parseVal
+        let vals ← if vs == "" then some [] else (vs.splitOn ",").mapM fun t => FP.Drv.parseVal (t.replace "/" ",")   -- the commas inside a temporal token travel as '/' 
         pure (name, vals)
     | _ => none
 
